@@ -206,6 +206,20 @@ CANARIES = [
     ("ctx-exit-swallow", "c15_ctx", "_utils/__init__.py", "        self.state = self._depth_tracker.pop(self._depth)\n", "        self.state = self._depth_tracker.pop(self._depth)\n        return True\n", r"C15\.ctx\..*(returns_falsy|exception_propagates)"),
     ("noautodiff-wrapper-outside", "c15_ctx", "_utils/graph_tracking.py", "            with self:\n                out = func(*args, **kwargs)", "            out = func(*args, **kwargs)\n            with self:\n                pass", r"C15\.ctx\._NoAutoDiff\.__call__.*body_state"),
     ("memguard-on-value", "c15_ctx", "_utils/lock_management.py", "    _enter_set_value = True", "    _enter_set_value = False", r"C15\.ctx\._WithMemGuard"),
+    # ---- rearrangement ops (c02_struct) ------------------------------------------------------------------------------------
+    ("transpose-bwd-no-argsort", "c02_struct", "tensor_manip/transpose_like/ops.py", "            grad = grad.transpose(np.argsort(self.axes))", "            grad = grad.transpose(self.axes)", r"C02\.struct\.Transpose\[r3.*\.vjp"),
+    ("transpose-axes-not-normalised", "c02_struct", "tensor_manip/transpose_like/ops.py", "            self.axes = tuple(axis % a.ndim for axis in axes)", "            self.axes = tuple(axes)", r"C02\.struct\.Transpose\[r[23],axes=.*-.*\.(vjp|grad_shape)"),
+    ("T-bwd-identity", "c02_struct", "tensor_manip/transpose_like/ops.py", "        return grad.T", "        return grad", r"C02\.struct\.Tensor_Transpose_Property"),
+    ("moveaxis-bwd-same-direction", "c02_struct", "tensor_manip/transpose_like/ops.py", "        return np.moveaxis(grad, self.destination, self.source)", "        return np.moveaxis(grad, self.source, self.destination)", r"C02\.struct\.MoveAxis.*\.(vjp|grad_shape)"),
+    ("swapaxes-bwd-order-harmless", "c02_struct", "tensor_manip/transpose_like/ops.py", "        return np.swapaxes(grad, self.axis2, self.axis1)", "        return np.swapaxes(grad, self.axis1, self.axis2)", None),
+    ("swapaxes-bwd-wrong-axis", "c02_struct", "tensor_manip/transpose_like/ops.py", "        return np.swapaxes(grad, self.axis2, self.axis1)", "        return np.swapaxes(grad, self.axis2, 0)", r"C02\.struct\.SwapAxes"),
+    ("roll-bwd-tuple-not-negated", "c02_struct", "tensor_manip/transpose_like/ops.py", "            else tuple(-i for i in self.shift)", "            else tuple(i for i in self.shift)", r"C02\.struct\.Roll\[.*shift=\(s0,s1\).*\.vjp"),
+    ("roll-bwd-scalar-not-negated", "c02_struct", "tensor_manip/transpose_like/ops.py", "            -self.shift\n", "            self.shift\n", r"C02\.struct\.Roll\[.*shift=s0.*\.vjp"),
+    ("roll-bwd-off-by-one", "c02_struct", "tensor_manip/transpose_like/ops.py", "            -self.shift\n", "            1 - self.shift\n", r"C02\.struct\.Roll\[.*shift=s0.*\.vjp"),
+    ("preserves-order-reversed-shape", "c02_struct", "tensor_manip/array_shape/ops.py", "        return np.reshape(grad, a.shape)", "        return np.reshape(grad, a.shape[::-1])", r"C02\.struct\..*grad_shape_is_operand_shape"),
+    ("preserves-order-transposes", "c02_struct", "tensor_manip/array_shape/ops.py", "        return np.reshape(grad, a.shape)", "        return np.reshape(grad.T, a.shape)", r"C02\.struct\."),
+    ("broadcast-to-bwd-folds-leading-axes", "c02_struct", "tensor_manip/array_shape/ops.py", "            )\n        return grad\n", "            )\n        if grad.ndim > self.variables[0].ndim:\n            grad = grad.reshape((-1,) + self.variables[0].shape).sum(axis=0)\n        return grad\n", r"C02\.struct\.BroadcastTo.*backward_returns_incoming_gradient"),
+    ("squeeze-ignores-axis", "c02_struct", "tensor_manip/array_shape/ops.py", "        return np.squeeze(a.data, axis=axis)", "        return np.squeeze(a.data)", None),  # changes the forward (a C03 matter); the VJP of that forward is still exact
     ("turn-off-noop", "c15_ctx", "_utils/lock_management.py", "    global MEM_GUARD\n    MEM_GUARD = False", "    MEM_GUARD = False", r"C15\.ctx\.turn_memory_guarding_off"),
 ]
 
